@@ -389,10 +389,13 @@ func runOne(t *testing.T, sc scenario, ch *sched.Chooser) (res sched.Result) {
 			oc = append(oc, fmt.Sprintf("%s:%d", c.id, c.outcome))
 		}
 		sort.Strings(oc)
-		res = sched.Result{Violation: viol, Key: key, Outcome: out + strings.Join(oc, ","), Trace: append(append([]string{}, e.Trace...), e.CanonLog()...)}
+		trace := append(append([]string{}, e.Trace...), e.CanonLog()...)
 		cancel(nil)
 		released = true
-		e.Teardown()
+		if leaked := e.Teardown(); len(leaked) > 0 {
+			fail("leak", "after DoBatch returned, every replica call returned and the context was cancelled, goroutines are still blocked for ever at %v", leaked)
+		}
+		res = sched.Result{Violation: viol, Key: key, Outcome: out + strings.Join(oc, ","), Trace: trace}
 	})
 	return
 }
